@@ -107,13 +107,14 @@ Qed.
 
 (* ---------- how one step changes one adapter ---------- *)
 Inductive achg (s : state) (l : label) (ai : N) (a a' : adapter) : Prop :=
-| ch_same : a' = a -> (forall ok p, l <> Out ai ok p) -> l <> Reinstate ai -> achg s l ai a a'
+| ch_same : a' = a -> (forall ok p, l <> Out ai ok p) -> l <> Reinstate ai -> (forall p, l <> Sent ai p) -> achg s l ai a a'
 | ch_ok : forall p, l = Out ai true p -> a' = succ_add (now s) a -> achg s l ai a a'
 | ch_fail : forall p, l = Out ai false p -> a' = fail_add a -> achg s l ai a a'
 | ch_reset : l = Reinstate ai -> memN ai (reinst s) = true -> a' = reset (now s) a -> achg s l ai a a'
+| ch_sent : forall p, l = Sent ai p -> a' = succ_add (now s) a -> achg s l ai a a'
 | ch_check : forall r, l = Check r -> chk (now s) a a' -> achg s l ai a a'.
 
-Ltac same_tac := apply ch_same; [reflexivity | intros ? ? HH; inversion HH; congruence | intros HH; inversion HH; congruence].
+Ltac same_tac := apply ch_same; [reflexivity | intros ? ? HH; inversion HH; congruence | intros HH; inversion HH; congruence | intros ? HH; inversion HH; congruence].
 
 Lemma get_same_objs : forall s s' ai, objs s' = objs s -> get ai s' = get ai s.
 Proof. unfold get; intros s s' ai H; rewrite H; reflexivity. Qed.
@@ -153,6 +154,13 @@ Proof.
     + exists a. split; [exact Ha | same_tac].
     + exists a. split; [rewrite (get_same_objs _ _ _ Ho); exact Ha | same_tac].
   - destruct (get ai0 s); inversion Hs; subst. exists a. split; [exact Ha | same_tac].
+  - destruct (get ai0 s) as [a0 |] eqn:Hg; [| discriminate].
+    destruct (probe && negb (memN ai0 (pcalls s))); [discriminate |].
+    assert (Hget : get ai s' = get ai (put ai0 (succ_add (now s) a0) s)).
+    { inversion Hs; subst; clear Hs. destruct probe; reflexivity. }
+    rewrite Hget. destruct (N.eq_dec ai ai0) as [-> | Hne].
+    + rewrite Hg in Ha. inversion Ha; subst. eexists. split; [eapply get_put_same; eauto |]. eapply ch_sent; reflexivity.
+    + exists a. split; [rewrite get_put_other by congruence; exact Ha | same_tac].
 Qed.
 
 (* a step creates at most one adapter: a fresh one for an endpoint that had none *)
@@ -182,6 +190,9 @@ Proof.
     inversion Hs; subst; clear Hs. left. simpl. apply length_upd.
   - destruct (step_refresh _ _ _ _ Hs) as [-> | [_ [att' [rot [_ [_ [_ [_ [Ho _]]]]]]]]]; left; [reflexivity | rewrite Ho; reflexivity].
   - destruct (get ai s); inversion Hs; subst. left; reflexivity.
+  - destruct (get ai s) as [a0 |] eqn:Hg; [| discriminate].
+    destruct (probe && negb (memN ai (pcalls s))); [discriminate |]. left.
+    inversion Hs; subst; clear Hs. destruct probe; simpl; apply length_upd.
 Qed.
 
 Lemma get_None_len : forall s ai, get ai s = None <-> (length (objs s) <= N.to_nat ai)%nat.
@@ -209,7 +220,7 @@ Proof.
 Qed.
 
 Lemma achg_aep : forall s l ai a a', achg s l ai a a' -> aep a' = aep a.
-Proof. intros s l ai a a' H. destruct H as [-> _ _ | p _ -> | p _ -> | _ _ -> | r _ Hc]; try reflexivity. exact (proj1 Hc). Qed.
+Proof. intros s l ai a a' H. destruct H as [-> _ _ _ | p _ -> | p _ -> | _ _ -> | p _ -> | r _ Hc]; try reflexivity. exact (proj1 Hc). Qed.
 
 (* attachment, selectors, registry and the shrunk flag, step by step *)
 Lemma step_att : forall s l s', step s l = Some s' ->
@@ -238,6 +249,9 @@ Proof.
     inversion Hs; subst; clear Hs. left. reflexivity.
   - destruct (step_refresh _ _ _ _ Hs) as [-> | Hr]; [left; reflexivity | right; right; exists l, inact; auto].
   - destruct (get ai s); inversion Hs; subst. left; reflexivity.
+  - destruct (get ai s) as [a0 |]; [| discriminate].
+    destruct (probe && negb (memN ai (pcalls s))); [discriminate |]. left.
+    inversion Hs; subst; clear Hs. destruct probe; reflexivity.
 Qed.
 
 Lemma step_shrunk : forall s l s', step s l = Some s' -> shrunk s' = false -> shrunk s = false.
@@ -262,6 +276,9 @@ Proof.
   - destruct (step_refresh _ _ _ _ Hs) as [-> | (_ & att' & rot & _ & _ & _ & _ & _ & _ & _ & _ & _ & _ & _ & _ & _ & _ & Hsh)]; [exact H |].
     rewrite Hsh in H. apply orb_false_iff in H. tauto.
   - destruct (get ai s); inversion Hs; subst. exact H.
+  - destruct (get ai s) as [a0 |]; [| discriminate].
+    destruct (probe && negb (memN ai (pcalls s))); [discriminate |].
+    inversion Hs; subst; clear Hs. destruct probe; exact H.
 Qed.
 
 (* while not shrunk, the attachment table only grows *)
@@ -369,6 +386,15 @@ Proof.
     rewrite Ha in Hle. rewrite Hle in Hok.
     assert (Hb' : get aj s = Some b) by (unfold get in *; rewrite <- Ho; exact Hb). rewrite Hb' in Hok. congruence.
   - simpl in Hs. destruct (get ai s); inversion Hs; subst. eapply HE; eauto.
+  - simpl in Hs. destruct (get ai s) as [a0 |] eqn:Hg; [| discriminate].
+    destruct (probe && negb (memN ai (pcalls s))); [discriminate |].
+    assert (Hx : att s' = att s /\ sel s' = sel s /\ objs s' = objs (put ai (succ_add (now s) a0) s)).
+    { inversion Hs; subst; clear Hs. destruct probe; repeat split. }
+    destruct Hx as [Hat [Hse Ho]]. rewrite Hat in Hle. rewrite Hse.
+    assert (Hb' : get aj (put ai (succ_add (now s) a0) s) = Some b) by (unfold get in *; rewrite <- Ho; exact Hb).
+    destruct (get_put _ _ _ _ _ _ Hg Hb') as [[-> ->] | [Hne Hb2]].
+    + eapply HE; [exact Hle | exact Hg | exact Hst].
+    + eapply HE; eauto.
 Qed.
 
 Lemma InvDE_reachable : forall s, reachable s -> InvDE s.
